@@ -6,7 +6,7 @@
     instance. [stuck st cfg d] = "the bundle every load picks has a key that does not match its
     certificate" (Model.v). *)
 From Coq Require Import List NArith ZArith Bool.
-From CM Require Import Bundle.Model Bundle.Proofs Bundle.Faults.
+From CM Require Import Bundle.Model Bundle.Proofs Bundle.Faults Bundle.Check Gen.Consts.
 Import ListNotations.
 Open Scope N_scope.
 
@@ -84,6 +84,34 @@ Proof.
   apply (never_stuck_without_old_cert cfg sp (w_core w0)); auto. apply faulted_effect; assumption.
 Qed.
 Print Assumptions C07_never_stuck_without_old_certificate.
+
+(** fault kind (b) of the property, in full: a plan is [calm] when the process does not die and no
+    two consecutive Storage calls fail — every single failing call (any index k: [single_error k])
+    and every set of failing calls without neighbours. Under a calm plan the rollback Delete that
+    follows a failed Store succeeds, and NO operation from any reachable state gets stuck ... *)
+Theorem C07_storage_errors_never_stuck : forall pl cfg sp orc h w0,
+  calm pl -> reach6 cfg sp (w_core w0) -> k_ocsp (w_core w0) = [] -> is_op7 h = true ->
+  stuck (w_st (snd (run_hop pl cfg sp orc h w0))) cfg (s_save sp) = false.
+Proof. intros pl cfg sp orc h w0 HC HR. apply calm_never_stuck; [exact HC | apply reach6_inv, HR]. Qed.
+Print Assumptions C07_storage_errors_never_stuck.
+
+(** ... so recovery after storage errors needs no exception: the fresh instance ends up serving a
+    certificate that is not due, names the subject and has its matching key *)
+Theorem C07_recoverable_after_storage_errors : forall pl cfg sp orc h orc_r w0,
+  calm pl -> reach6 cfg sp (w_core w0) -> k_ocsp (w_core w0) = [] -> canonical sp -> (1 <= n_iss cfg)%nat ->
+  is_op7 h = true ->
+  let w1 := snd (run_hop pl cfg sp orc h w0) in
+  all_up cfg orc_r (w_st w1) (s_save sp) ->
+  exists mc c', evals (manage no_faults cfg sp orc_r) (w_core (break_lock w1)) (Ok mc) c' /\
+                served_ok cfg sp mc c'.
+Proof.
+  intros pl cfg sp orc h orc_r w0 HC HR. apply recoverable_after_storage_errors; [exact HC | apply reach6_inv, HR].
+Qed.
+Print Assumptions C07_recoverable_after_storage_errors.
+
+Theorem C07_single_error_is_calm : forall k, calm (single_error k).
+Proof. exact calm_single_error. Qed.
+Print Assumptions C07_single_error_is_calm.
 
 (** the refuted class is permanent: on a stuck storage every later manage fails with the key
     mismatch and obtain is a no-op, whatever the issuers would answer; nothing changes *)
@@ -169,3 +197,35 @@ Proof.
     + apply (i_typed _ _ _ I). + apply (i_unlocked _ _ _ I). + reflexivity.
     + intros i x H. apply (i_crt _ _ _ I _ _ _ H). + cbn; auto.
 Qed.
+
+(** the calm twin of the refuted witness: same renewal with a fresh key, but instead of the process
+    dying after the Store of the new .key, the Store of the new .crt (call 12) fails: the rollback
+    deletes the key, the old certificate loses its key, and the fresh instance re-obtains *)
+Definition w7c_w1 : world := snd (run_hop (single_error 12) w7_cfg w7_sp (Oracle [Some (20%Z, VFresh)] []) HManage w7_w0).
+Example C07_single_error_witness_recovers :
+  fst (run_hop (single_error 12) w7_cfg w7_sp (Oracle [Some (20%Z, VFresh)] []) HManage w7_w0) = Fail EInjected /\
+  dir_key (w_st w7c_w1) 0 0 = None /\ stuck (w_st w7c_w1) w7_cfg 0 = false /\
+  exists mc w2, manage no_faults w7_cfg w7_sp (Oracle [Some (30%Z, VFresh)] []) (break_lock w7c_w1) = (Ok mc, w2) /\
+                c_ser (m_c mc) = 2 /\ m_k mc = 2.
+Proof. vm_compute. repeat split. eexists. eexists. repeat split. Qed.
+
+(** * the statement order of the source, re-read by the translator on every run ([Gen.Consts]),
+    against the order in which the MODEL performs its Storage calls: (operation, file kind) of every
+    call on a certificate file, from the model's own log *)
+Definition c07_file_ops (w : world) : list (Z * Z) :=
+  flat_map (fun e => match e with LOp k (TFile (_, _, fk)) _ => [(okind_code k, fkind_code fk)] | _ => [] end) (rev (w_log w)).
+Definition c07_x : cert := Cert 7 0 10%Z VFresh 0.
+Definition c07_full : world := World (set_st empty_core (put_bundle [] 0 0 7 c07_x [0])) 0 [].
+Theorem C07_source_order_matches_model :
+  (* saveCertResource + storeTx: Store .key, .crt, .json in this order ... *)
+  map snd (c07_file_ops (snd (save no_faults 0 0 7 c07_x [0] empty_world))) = c07_save_order /\
+  c07_save_via_storetx = true /\ c07_storetx_shape = true /\
+  (* ... and when the last Store fails the roll-back Deletes the keys already written in reverse
+     order (.crt, then .key); when the second fails, the .key *)
+  c07_file_ops (snd (save (single_error 2) 0 0 7 c07_x [0] empty_world)) = [(0, 0); (0, 1); (0, 2); (2, 1); (2, 0)]%Z /\
+  c07_file_ops (snd (save (single_error 1) 0 0 7 c07_x [0] empty_world)) = [(0, 0); (0, 1); (2, 0)]%Z /\
+  (* the completeness test of the restart path: Exists .crt, .key, .json; the load: .key, .crt, .json *)
+  map snd (c07_file_ops (snd (has_res no_faults 0 0 c07_full))) = c07_has_order /\
+  map snd (c07_file_ops (snd (load_res no_faults 0 0 c07_full))) = c07_load_order.
+Proof. vm_compute. repeat split. Qed.
+Print Assumptions C07_source_order_matches_model.
